@@ -270,11 +270,14 @@ pub struct ProbeCfg {
     /// all 9 kinds of bound pairs for every pair of probe keys (else a fixed small menu)
     pub all_range_pairs: bool,
     pub range_filters: bool,
+    /// seek on a cursor that has already been iterated (0 = off; n = up to n prior next() calls,
+    /// plus a second seek on the same cursor)
+    pub reuse: usize,
 }
 
 impl ProbeCfg {
-    pub const LIGHT: ProbeCfg = ProbeCfg { gets: true, scan: true, filters: true, seeks: true, extra_next: 1, ranges: true, all_range_pairs: false, range_filters: false };
-    pub const FULL: ProbeCfg = ProbeCfg { gets: true, scan: true, filters: true, seeks: true, extra_next: 3, ranges: true, all_range_pairs: true, range_filters: true };
+    pub const LIGHT: ProbeCfg = ProbeCfg { gets: true, scan: true, filters: true, seeks: true, extra_next: 1, ranges: true, all_range_pairs: false, range_filters: false, reuse: 1 };
+    pub const FULL: ProbeCfg = ProbeCfg { gets: true, scan: true, filters: true, seeks: true, extra_next: 3, ranges: true, all_range_pairs: true, range_filters: true, reuse: 4 };
 }
 
 /// A single observation that disagreed with the model.
@@ -467,6 +470,74 @@ pub fn probe_bucket<'b, 'tx>(
                     }
                 }
                 Err(p) => push(if model_all.is_empty() { "panic:seek_empty" } else { "panic:seek" }, format!("seek({}): {}", show(k), p)),
+            }
+        }
+    }
+
+    if cfg.seeks && cfg.reuse > 0 {
+        // the same cursor object used again: next() a few times, then seek; and seek twice
+        for k in probes {
+            let want_exists = m.items.contains_key(k);
+            let ge: Vec<_> = model_all.iter().filter(|x| x.0 >= *k).cloned().collect();
+            let pred = model_all.iter().filter(|x| x.0 < *k).last().cloned();
+            let acceptable = |v: &Vec<(Bytes, Option<Bytes>)>| -> bool {
+                if want_exists {
+                    *v == ge
+                } else {
+                    *v == ge || pred.as_ref().map(|p| v.len() == ge.len() + 1 && v[0] == *p && v[1..] == ge[..]).unwrap_or(false)
+                }
+            };
+            for prior in 1..=cfg.reuse.min(model_all.len().max(1)) {
+                stats.reads += 1;
+                let r = guarded(|| {
+                    let mut c = b.cursor();
+                    for _ in 0..prior {
+                        c.next();
+                    }
+                    let exists = c.seek(k.as_slice());
+                    let mut v = vec![];
+                    while let Some(d) = c.next() {
+                        v.push(data_to_pair(&d));
+                        if v.len() > SCAN_CAP {
+                            break;
+                        }
+                    }
+                    (exists, v)
+                });
+                match r {
+                    Ok((exists, v)) => {
+                        if exists != want_exists || !acceptable(&v) {
+                            push("seek_after_next", format!("cursor advanced {} time(s), then seek({}) returned {} and iteration yields {} expected exists={} and {}", prior, show(k), exists, show_pairs(&v), want_exists, show_pairs(&ge)));
+                        }
+                    }
+                    Err(p) => push("panic:seek_after_next", format!("seek({}) after {} next(): {}", show(k), prior, p)),
+                }
+            }
+            // seek somewhere else first, iterate one step, then seek to k
+            if let Some(other) = probes.iter().find(|o| *o != k) {
+                stats.reads += 1;
+                let r = guarded(|| {
+                    let mut c = b.cursor();
+                    c.seek(other.as_slice());
+                    c.next();
+                    let exists = c.seek(k.as_slice());
+                    let mut v = vec![];
+                    while let Some(d) = c.next() {
+                        v.push(data_to_pair(&d));
+                        if v.len() > SCAN_CAP {
+                            break;
+                        }
+                    }
+                    (exists, v)
+                });
+                match r {
+                    Ok((exists, v)) => {
+                        if exists != want_exists || !acceptable(&v) {
+                            push("seek_after_seek", format!("seek({}), next(), then seek({}) returned {} and iteration yields {} expected {}", show(other), show(k), exists, show_pairs(&v), show_pairs(&ge)));
+                        }
+                    }
+                    Err(p) => push("panic:seek_after_seek", p),
+                }
             }
         }
     }
